@@ -40,3 +40,11 @@ let split_case (line : string) : string * string =
   let i = find 0 in
   if i < 0 then (line, "") else (String.sub line 0 i, String.sub line (i + m) (n - i - m))
 let words s = List.filter (fun x -> x <> "") (String.split_on_char ' ' s)
+
+(* binary numbers *)
+let rec pos_of_int n = if n <= 1 then BinNums.Coq_xH else if n land 1 = 0 then BinNums.Coq_xO (pos_of_int (n / 2)) else BinNums.Coq_xI (pos_of_int (n / 2))
+let n_of_int n = if n <= 0 then BinNums.N0 else BinNums.Npos (pos_of_int n)
+let z_of_int n = if n = 0 then BinNums.Z0 else if n > 0 then BinNums.Zpos (pos_of_int n) else BinNums.Zneg (pos_of_int (-n))
+let rec int_of_pos = function BinNums.Coq_xH -> 1 | BinNums.Coq_xO p -> 2 * int_of_pos p | BinNums.Coq_xI p -> 2 * int_of_pos p + 1
+let int_of_n = function BinNums.N0 -> 0 | BinNums.Npos p -> int_of_pos p
+let sorted_strings l = List.sort compare l
